@@ -196,3 +196,66 @@ def spectrum_from_composition(comp, menu):
 
 def pow2(e):
     return math.ldexp(1.0, e)
+
+
+# ------------------------------------------------------------------ component-support masks / special matrices
+COMPONENT_MASKS = [m for m in range(1, 16)]  # bit t set <=> component t (w,x,y,z) may be non-zero
+
+
+def mask_name(mask):
+    return "".join(n for t, n in enumerate("1ijk") if (mask >> t) & 1)
+
+
+def apply_component_mask(A, mask):
+    """Zero every quaternion component not in the mask (entries stay in a fixed real subspace of H)."""
+    A = np.array(A, dtype=float, copy=True)
+    for t in range(4):
+        if not (mask >> t) & 1:
+            A[..., t] = 0.0
+    return A
+
+
+SPECIAL_KINDS = ["cyclic_shift", "cyclic_shift_q", "exchange", "lower_shift", "upper_shift", "companion", "ones", "hadamard_like", "path_laplacian"]
+
+
+def special(kind, n, fill=None):
+    """Structured n x n matrices that random draws never produce."""
+    A = np.zeros((n, n, 4))
+    if kind == "cyclic_shift":
+        for i in range(n):
+            A[(i + 1) % n, i, 0] = 1.0
+    elif kind == "cyclic_shift_q":
+        for i in range(n):
+            A[(i + 1) % n, i] = SIGNED_UNITS[(2 * i + 3) % 8]
+    elif kind == "exchange":
+        for i in range(n):
+            A[i, n - 1 - i, 0] = 1.0
+    elif kind == "lower_shift":
+        for i in range(n - 1):
+            A[i + 1, i, 0] = 1.0
+    elif kind == "upper_shift":
+        for i in range(n - 1):
+            A[i, i + 1] = SIGNED_UNITS[(2 * i + 1) % 8]
+    elif kind == "companion":
+        for i in range(n - 1):
+            A[i + 1, i, 0] = 1.0
+        for i in range(n):
+            A[i, n - 1] = [0.5 * (i + 1), 0.25 * ((i % 2) * 2 - 1), 0.0, 0.5 if i == 0 else 0.0]
+    elif kind == "ones":
+        A[..., 0] = 1.0
+    elif kind == "hadamard_like":
+        # Hermitian, eigenvectors (1,...,1) [non-dominant] and alternating signs [dominant]
+        one = np.ones((n, 1))
+        alt = np.array([[(-1.0) ** i] for i in range(n)])
+        M = 1.0 * (one @ one.T) / n + 3.0 * (alt @ alt.T) / n
+        A[..., 0] = M
+    elif kind == "path_laplacian":
+        for i in range(n):
+            A[i, i, 0] = 2.0 if 0 < i < n - 1 else 1.0
+            if i + 1 < n:
+                A[i, i + 1, 0] = A[i + 1, i, 0] = -1.0
+        if n == 1:
+            A[0, 0, 0] = 1.0
+    else:
+        raise ValueError(kind)
+    return A
